@@ -606,8 +606,8 @@ pub const REGEX_LITS: &[&str] = &[
 ];
 pub const TIMEFMT_LITS: &[&str] = &["\"%Y-%m-%d\"", "\"%H:%M:%S\"", "\"%s\"", "\"%Y\"", "\"%%\"", "\"%Y-%m-%dT%H:%M:%S\"", "\"%d/%m/%y\"", "\"%Q\"", "\"%\"", "\"\"", "\"%j\"", "\"%a %b %e\"", "\"%Y-%m-%d %H:%M:%S %z\"", "\"%T\"", "\"%v\"", "\"%.3f\"", "\"x\"", "\"%e%\"", "\"%-d\"", "\"%5Y\"", "\"%:z\"", "\"%+\""];
 pub const TIMESTR_LITS: &[&str] = &["\"2023-12-03\"", "\"13:51:55\"", "\"1701611515\"", "\"2023\"", "\"2023-12-03T13:51:55\"", "\"03/12/23\"", "\"2023-12-03 13:51:55 +0500\"", "\"\"", "\"x\"", "\"1970-01-01T00:00:00\"", "\"2024-02-29\"", "\"2023-02-29\"", "\"9999-12-31\"", "\"%\""];
-pub const JSONTEXT_LITS: &[&str] = &["\"[1, 2]\"", "\"{\\\"a\\\":1}\"", "\"\\\"x\\\"\"", "\" 12 \"", "\"tru\"", "\"1 2\"", "\"\"", "\"{\\\"a\\\":}\"", "\"[1,[2,{\\\"b\\\":null}]]\"", "\"1e2\"", "\"null\"", "\"-\"", "\"[\"", "\"\\\"\u{e9}\\\"\"", "\"18446744073709551615\"", "\"0.5\"", "\"+5\"", "\"+0012\"", "\"007\"", "\"1.\"", "\".5\"", "\"0x10\"", "\"1e\"", "\"NaN\"", "\"Infinity\"", "\"--1\"", "\"1_000\"", "\" 5 \"", "\"\u{661}\u{662}\"", "\"\u{ff15}\"", "\"5 \"", "\"-\"", "\"+\"", "\"01\"", "\"-01\"", "\"1e+\"", "\"tRue\"", "\"True\"", "\"nul\"", "\"'a'\""];
-pub const EXPRTEXT_LITS: &[&str] = &["\"(+ 10 11)\"", "\".\"", "\".n\"", "\"(len .)\"", "\"(\"", "\"(nosuch 1)\"", "\"1\"", "\"\\\"a\\\"\"", "\"(+ 1\"", "\"^.n\"", "\"(+ 1 2) x\"", "\"\"", "\"(len)\"", "\":v\"", "\"(map .an (+ . 1))\"", "\"(take .s 1)\"", "\"(+ 10 11) junk\"", "\"(+ 10 11))\"", "\".n junk\"", "\"12 13\"", "\"[1,2]]\"", "\"(+ 10 11) = total\"", "\"#99999999999999999999\"", "\".an#18446744073709551616\"", "\"#18446744073709551615\""];
+pub const JSONTEXT_LITS: &[&str] = &["\"[1, 2]\"", "\"{\\\"a\\\":1}\"", "\"\\\"x\\\"\"", "\" 12 \"", "\"tru\"", "\"1 2\"", "\"\"", "\"{\\\"a\\\":}\"", "\"[1,[2,{\\\"b\\\":null}]]\"", "\"1e2\"", "\"null\"", "\"-\"", "\"[\"", "\"\\\"\u{e9}\\\"\"", "\"18446744073709551615\"", "\"0.5\"", "\"+5\"", "\"+0012\"", "\"007\"", "\"1.\"", "\".5\"", "\"0x10\"", "\"1e\"", "\"NaN\"", "\"Infinity\"", "\"--1\"", "\"1_000\"", "\" 5 \"", "\"\u{661}\u{662}\"", "\"\u{ff15}\"", "\"5 \"", "\"-\"", "\"+\"", "\"01\"", "\"-01\"", "\"1e+\"", "\"tRue\"", "\"True\"", "\"nul\"", "\"'a'\"", "\"'[1, 2]'\"", "\"'5'\""];
+pub const EXPRTEXT_LITS: &[&str] = &["\"(+ 10 11)\"", "\".\"", "\".n\"", "\"(len .)\"", "\"(\"", "\"(nosuch 1)\"", "\"1\"", "\"\\\"a\\\"\"", "\"(+ 1\"", "\"^.n\"", "\"(+ 1 2) x\"", "\"\"", "\"(len)\"", "\":v\"", "\"(map .an (+ . 1))\"", "\"(take .s 1)\"", "\"(+ 10 11) junk\"", "\"(+ 10 11))\"", "\".n junk\"", "\"12 13\"", "\"[1,2]]\"", "\"(+ 10 11) = total\"", "\"#99999999999999999999\"", "\".an#18446744073709551616\"", "\"#18446744073709551615\"", "\"\'(+ 10 11)\'\"", "\"\'.n\'\"", "\"/s0\""];
 pub const B64_LITS: &[&str] = &["\"dGVzdA==\"", "\"\"", "\"YQ==\"", "\"w6k=\"", "\"wyg=\"", "\"test\"", "\"dGVzdA\"", "\"!!!!\"", "\"YWI=\"", "\"YWJj\"", "\"/w==\"", "\"Y Q = =\"", "\"YR==\""];
 pub const ENVNAME_LITS: &[&str] = &["\"JV_TEST_ENV\"", "\"JV_NO_SUCH_VARIABLE\"", "\"\"", "\"A=B\"", "\"HOME\""];
 pub const GROUP_KEYS: &[&str] = &["\"x\"", "\"y\"", "\"\"", "\"x\"", "\"z\""];
